@@ -39,7 +39,7 @@ RECURSIVE Join(_, _)
 Join(s, sep) == IF s = <<>> THEN "" ELSE IF Len(s) = 1 THEN s[1] ELSE s[1] \o sep \o Join(Tail(s), sep)
 
 SiteOrgs(e) == Join([k \in 1..Len(e.sites) |-> e.sites[k].org], "/")
-MutDesc(e)  == e.kind \o "@" \o SiteOrgs(e)
+MutDesc(e)  == e.kind \o "[" \o e.pos \o "]@" \o SiteOrgs(e)
 MutClass    == IF muts = <<>> THEN "none" ELSE Join([k \in 1..Len(muts) |-> MutDesc(muts[k])], "+")
 
 (* sites (in history order) whose mutated object is a proper ancestor of p   *)
